@@ -1,6 +1,6 @@
 (* C16 — property theorems (statements only; proofs live in Proofs*.v). *)
 From Coq Require Import ZArith QArith Qabs List Bool.
-Require Import QV.C16.Model QV.C16.Spec QV.C16.Proofs QV.C16.Proofs2 QV.C16.Proofs3 QV.C16.Proofs4 QV.C16.Proofs5 QV.C16.Proofs_term QV.C16.Proofs6 QV.C16.Proofs_fuel QV.C16.Proofs7 QV.C16.Proofs8.
+Require Import QV.C16.Model QV.C16.Spec QV.C16.Proofs QV.C16.Proofs2 QV.C16.Proofs3 QV.C16.Proofs4 QV.C16.Proofs5 QV.C16.Proofs_term QV.C16.Proofs6 QV.C16.Proofs_fuel QV.C16.Proofs7 QV.C16.Proofs8 QV.C16.Proofs9.
 Import ListNotations.
 Open Scope Z_scope.
 
@@ -243,3 +243,26 @@ Theorem C16_compile_fuel_closed_nonvacuous :
   (fab_bound 2 (l_ch (root_of ex_prog)) <= fab_fuel)%nat /\ (prep_bound (l_ch (root_of ex_prog)) <= prep_fuel)%nat.
 Proof. exact ex_fuel_closed. Qed.
 Print Assumptions C16_compile_fuel_closed_nonvacuous.
+
+(* (8) the stateful use (TaborProgram restructures its argument in place): a Loop that was compiled before — advanced
+   mode, any limits (mn, mx), any fuel, up to the end of prepare — and is compiled again with ANY configuration c' plays
+   the specification of the ORIGINAL program (the specification depends on the played leaf sequence only, which the
+   first compilation preserves; the tree left behind is again in the input domain) *)
+Theorem C16_recompile_plays : forall c' tbl prog f1 f2 mn mx ch1 ch2 o,
+  good prog = true ->
+  (forall w1 w2 d1 d2, nth_error tbl w1 = Some d1 -> nth_error tbl w2 = Some d2 -> wf_cls d1 = wf_cls d2 -> d1 = d2) ->
+  (forall w d, nth_error tbl w = Some d -> (wf_len d == inject_Z (wf_n d))%Q) ->
+  depth (root_of prog) >? 1 = true -> l_rep (root_of prog) =? 1 = true ->
+  fab f1 2 [] (l_ch (root_of prog)) = Ok ch1 ->
+  prep f2 mn mx [] ch1 = Ok ch2 ->
+  compile c' tbl (set_ch (root_of prog) ch2) = Ok o ->
+  exists s, spec c' tbl prog = Some s /\ expand o = Some s.
+Proof. exact recompile_plays. Qed.
+Print Assumptions C16_recompile_plays.
+
+Theorem C16_recompile_nonvacuous : exists ch1 ch2 o,
+  depth (root_of ex_prog) >? 1 = true /\ l_rep (root_of ex_prog) =? 1 = true /\
+  fab fab_fuel 2 [] (l_ch (root_of ex_prog)) = Ok ch1 /\ prep prep_fuel 3 5 [] ch1 = Ok ch2 /\
+  compile (ex_cfg 2 8) ex_tbl (set_ch (root_of ex_prog) ch2) = Ok o.
+Proof. exact ex_recompile. Qed.
+Print Assumptions C16_recompile_nonvacuous.
